@@ -13,6 +13,7 @@ class Bridge:
         self.blocks = [bytes(self.bs)]
         self.hids = {}
         self.names = {}
+        self.hash_done = set()
         self.hash_known = {}     # (bid, len) -> hval token, learnt from content files and from the hasher
         self.parity = [[] for _ in range(arr.np)]   # model parity: level -> list of tokens lists ('N' | ['E', ids])
 
@@ -127,6 +128,40 @@ class Bridge:
                     if s in ('BLK', 'REP'):
                         blk = v[i * self.bs:(i + 1) * self.bs]
                         self.hash_known[(self.bid(blk), len(blk))] = self.hval(h)
+
+    def compute_hashes(self, hasher, st, extra_lens=()):
+        """complete the hash table with the tool's own hash function (harness/c/hash_drv.c built from the working tree):
+        every known block id x every block length in use"""
+        from common import run_lines
+        if self.arr.bs != st['blocksize'] or st['hash'] is None:
+            return
+        lens = {self.bs} | set(extra_lens)
+        for d in st['disks'].values():
+            for f in d['files']:
+                if f['size'] % self.bs:
+                    lens.add(f['size'] % self.bs)
+        for d in self.arr.disks:
+            base = os.path.join(self.arr.root, d)
+            for root, dirs, fs in os.walk(base):
+                for n in fs:
+                    p = os.path.join(root, n)
+                    if not os.path.islink(p):
+                        sz = os.path.getsize(p)
+                        if sz % self.bs:
+                            lens.add(sz % self.bs)
+        todo = [(b, l) for b in range(len(self.blocks)) for l in sorted(lens) if (b, l) not in self.hash_done]
+        if not todo:
+            return
+        seed = st['seed'].hex()
+        lines = ['%s %s %s' % (st['hash'], seed, self.blocks[b][:l].hex()) for b, l in todo]
+        outs = run_lines(hasher, lines, shards=min(8, max(1, len(lines) // 50)))
+        for (b, l), o in zip(todo, outs):
+            self.hash_done.add((b, l))
+            try:
+                dig = bytes.fromhex(o.strip())[:st['hashsize']]
+            except ValueError:
+                continue
+            self.hash_known[(b, l)] = self.hval(dig)
 
     def ser_hashes(self, extra=()):
         items = dict(self.hash_known)
